@@ -193,7 +193,7 @@ func init() {
 			}
 			return args[1]
 		},
-		"verifNative": func(fr *frame, args []value) value { return false },
+		"verifNative":       func(fr *frame, args []value) value { return false },
 		"verifNativeLock":   func(fr *frame, args []value) value { return nil },
 		"verifNativeUnlock": func(fr *frame, args []value) value { return nil },
 		"verifBytesEqual": func(fr *frame, args []value) value {
@@ -219,6 +219,11 @@ func init() {
 		"verifFlockHeld": func(fr *frame, args []value) value {
 			return fr.i.flocks()[args[0].(string)] != nil
 		},
+		// non-forking Boolean connectives
+		"verifOr": func(fr *frame, args []value) value {
+			return fr.i.notV(fr.i.andV(fr.i.notV(args[0]), fr.i.notV(args[1])))
+		},
+		"verifAnd":         func(fr *frame, args []value) value { return fr.i.andV(args[0], args[1]) },
 		"verifNativeSleep": func(fr *frame, args []value) value { return nil },
 		"verifReach": func(fr *frame, args []value) value {
 			fr.i.reached[args[0].(string)]++
@@ -255,6 +260,12 @@ func init() {
 			return nil
 		},
 		"verifYield": func(fr *frame, args []value) value {
+			// a possible context switch (counts against the preemption budget)
+			fr.i.block(nil, "yield")
+			return nil
+		},
+		"verifPoll": func(fr *frame, args []value) value {
+			// polling loop: always lets another runnable thread run (not a preemption)
 			fr.i.yield()
 			return nil
 		},
